@@ -22,10 +22,11 @@ Both families also contain two environment families (tape-chosen per run):
     requested), never against the pool's own attributes.
 """
 from twisted._threads import _pool, AlreadyQuit
-from twisted.python import threadpool
+from twisted.python import log as _tplog, threadpool
 from twisted.python.failure import Failure
 
 from detsim import threads as T
+from detsim.sim import StepLimit, Violation
 
 ID = "C49"
 ENGINE = "threads"
@@ -73,6 +74,11 @@ def _do_raise(kind, i):
     if kind == "BaseException":
         raise TaskExit("task %d" % i)
     raise RuntimeError("task %d" % i)
+
+
+class CallbackBug(RuntimeError):
+    """What a caller-supplied onResult callback raises (an application bug in the callback, a callFromThread on a reactor
+    that is shutting down ...); a class of its own so that the harness recognises its own fault."""
 
 
 class WorkerCreationFailed(RuntimeError):
@@ -354,11 +360,17 @@ def family_b(sim):
     adjust_w = sim.draw_choice([1, 1, 5], "adjust_weight")     # some runs churn the limit: several changes between few submissions
     if keep_min0:
         adjust_w = 5
+    # the caller's side of callInThreadWithCallback: in some runs onResult callbacks themselves raise (after a function that succeeded
+    # as well as after one that failed), and some submissions are plain callInThread (no callback: nothing to report to)
+    cb_raise_p = sim.draw_choice([0.0, 0.3, 0.6], "onresult_raise_p")
+    no_cb_p = sim.draw_choice([0.0, 0.2], "no_callback_p")
     sim.config = {"family": "threadpool", "min": minthreads, "max": maxthreads, "callers": ncallers, "preempt_p": preempt, "start_late": start_late, "policy": policy,
-                  "create_fail_p": create_fail_p, "raise_from_zero_may_keep_min0": keep_min0, "adjust_weight": adjust_w}
+                  "create_fail_p": create_fail_p, "raise_from_zero_may_keep_min0": keep_min0, "adjust_weight": adjust_w,
+                  "onresult_raise_p": cb_raise_p, "no_callback_p": no_cb_p}
     L = LimitModel(minthreads, maxthreads)
     sched = T.Scheduler(sim, trace_files=("_threads/_team.py", "_threads/_threadworker.py", "python/threadpool.py") if preempt else (), preempt_p=preempt, policy=policy)
     saved = (_pool.Queue, _pool.Lock, _pool.LocalStorage, _pool.ThreadWorker)
+    saved_log_err = _tplog.err
     real_TW = _pool.ThreadWorker
     quit_calls = []
     created = []
@@ -394,16 +406,37 @@ def family_b(sim):
     _pool.ThreadWorker = RecordingWorker
     ran = {}
     results = {}
+    no_callback = set()     # ids submitted through callInThread: there is nobody to report to
+    logged = []             # what the pool handed to the log (a raising callback, a failed task nobody listens to) instead of stderr
     in_progress = [0]
     submitted_before_stop = []
     stop_called = [False]
     try:
         pool = threadpool.ThreadPool(minthreads, maxthreads, name="pool")
+        # where the pool logs: the Team's logException (whatever escapes from a submitted item, e.g. from a raising onResult) and
+        # log.err (a failed function nobody listens to).  Recorded, not printed; the statement says nothing about logging: no verdict.
+        pool._team._logException = lambda: logged.append("item")
+        _tplog.err = lambda *a, **kw: logged.append("err")
 
         def thread_factory(*a, **kw):
             if state["faults_armed"] and create_fail_p and sim.draw_bool(create_fail_p, "thread_create_fails"):
                 sim.fault("thread_creation_failed")
                 raise WorkerCreationFailed("can't start new thread")
+            target = kw.get("target")
+
+            def pool_thread_main(*ta, **tkw):
+                # nothing a task or a result callback raises may end a pool thread (the scheduler would hand it to the harness)
+                try:
+                    return target(*ta, **tkw)
+                except (T.Abort, T.Deadlock, Violation, StepLimit):
+                    raise
+                except TaskExit:
+                    sim.fail("task-exception-escaped", "threadpool:BaseException", "a BaseException raised by a task or its onResult callback escaped from the pool thread's loop")
+                except Exception as e:
+                    sim.fail("task-exception-escaped", "threadpool:" + type(e).__name__, "%s escaped from the pool thread's loop: %s" % (type(e).__name__, str(e)[:200]))
+
+            if target is not None:
+                kw = dict(kw, target=pool_thread_main)
             return sched.thread_factory(*a, **kw)
 
         pool.threadFactory = thread_factory
@@ -455,11 +488,21 @@ def family_b(sim):
                 return i * 10
             return task
 
-        def on_result(i, raises):
+        def on_result(i, raises, cb_raises, cb_kind, cb_every):
             def cb(ok, res):
-                results.setdefault(i, []).append(ok)
+                got = results.setdefault(i, [])
+                got.append(ok)
+                # a second report is a violation the moment it is made, whatever the callback did with the first one
+                sim.check("result-exactly-once", len(got) == 1, "threadpool", "task %d: onResult called %d times: %r (function raises=%s, callback raises=%s)"
+                          % (i, len(got), got, raises, cb_raises))
                 sim.check("result-flag-correct", ok == (not raises) and (res == i * 10 if ok else isinstance(res, Failure)), "threadpool",
                           "task %d raises=%s reported ok=%s" % (i, raises, ok))
+                if cb_raises and (cb_every or len(got) == 1):
+                    sim.fault("onresult_raised_after_success" if ok else "onresult_raised_after_failure")
+                    if cb_kind == "BaseException":
+                        sim.probe("onresult_raised_bare_BaseException")
+                        raise TaskExit("callback of task %d" % i)
+                    raise CallbackBug("callback of task %d" % i)
             return cb
 
         def caller(k, nops):
@@ -470,9 +513,18 @@ def family_b(sim):
                     i = ids[0]
                     raises = sim.draw_bool(0.25, "raises")
                     before_stop = not stop_called[0]
-                    sim.event("submit", i)
+                    plain = bool(no_cb_p) and sim.draw_bool(no_cb_p, "no_callback")
+                    cb_raises = not plain and bool(cb_raise_p) and sim.draw_bool(cb_raise_p, "onresult_raises")
+                    cb_kind = _raise_kind(sim) if cb_raises else None
+                    cb_every = cb_raises and sim.draw_bool(0.5, "onresult_raises_every_time")   # else: only the first time it is called
+                    sim.event("submit", i, "plain" if plain else "cb-raises" if cb_raises else "")
                     try:
-                        pool.callInThreadWithCallback(on_result(i, raises), make_task(i, raises, sim.draw_int(0, 2, "steps")))
+                        if plain:
+                            no_callback.add(i)
+                            sim.probe("submitted_without_callback")
+                            pool.callInThread(make_task(i, raises, sim.draw_int(0, 2, "steps")))
+                        else:
+                            pool.callInThreadWithCallback(on_result(i, raises, cb_raises, cb_kind, cb_every), make_task(i, raises, sim.draw_int(0, 2, "steps")))
                         if before_stop and not stop_called[0]:
                             submitted_before_stop.append(i)
                     except AlreadyQuit:
@@ -603,7 +655,13 @@ def family_b(sim):
             sim.check("task-at-most-once", n <= 1, "threadpool", "task %d ran %d times" % (i, n))
         for i, r in results.items():
             sim.check("result-exactly-once", len(r) == 1 and ran.get(i) == 1, "threadpool", "task %d: onResult %d times, ran %s" % (i, len(r), ran.get(i)))
-        missing = [i for i in submitted_before_stop if ran.get(i, 0) != 1 or len(results.get(i, [])) != 1]
+        if logged:
+            sim.probe("pool_logged_an_exception")
+
+        def want(i):
+            return 0 if i in no_callback else 1     # reports owed for a task that ran
+
+        missing = [i for i in submitted_before_stop if ran.get(i, 0) != 1 or len(results.get(i, [])) != want(i)]
         witness = "threadpool"
         if state.get("start_aborted_by_torn_limits"):
             missing = [i for i in missing if ran.get(i, 0) > 1 or len(results.get(i, [])) > 1]   # never-ran gets no verdict; twice still does
@@ -625,6 +683,7 @@ def family_b(sim):
     finally:
         sched.shutdown()
         _pool.Queue, _pool.Lock, _pool.LocalStorage, _pool.ThreadWorker = saved
+        _tplog.err = saved_log_err
     sim.nontrivial = bool(sim.probes.get("line_preemption") or sim.probes.get("limit_changed") or sim.probes.get("stop_a_worker") or sim.probes.get("started_with_backlog"))
 
 
